@@ -73,7 +73,7 @@ fn cmd_run(args: &[String]) {
     let out = opt(args, "--out");
     let only = opt(args, "--only");
     crumbs::install(opt(args, "--crumbs").as_deref());
-    let wd: u64 = std::env::var("VERIF_WATCHDOG_MS").ok().and_then(|s| s.parse().ok()).unwrap_or(20_000);
+    let wd: u64 = std::env::var("VERIF_WATCHDOG_MS").ok().and_then(|s| s.parse().ok()).unwrap_or(90_000);
     crumbs::WATCHDOG_MS.store(wd, std::sync::atomic::Ordering::Relaxed);
     let cfgs = match props::configs(&prop, tier) {
         Some(c) => c,
@@ -153,7 +153,7 @@ fn cmd_replay(args: &[String]) {
         usage();
     }
     crumbs::install(None);
-    crumbs::WATCHDOG_MS.store(20_000, std::sync::atomic::Ordering::Relaxed);
+    crumbs::WATCHDOG_MS.store(90_000, std::sync::atomic::Ordering::Relaxed);
     let text = std::fs::read_to_string(&args[0]).expect("cannot read replay file");
     let v: Value = serde_json::from_str(&text).expect("replay file is not JSON");
     let prop = v["property"].as_str().expect("replay: no property").to_string();
